@@ -626,7 +626,11 @@ pub fn binary_determinism(rep: &mut Report, seed: u64) {
     }
     let replay = format!("check=C13 kind=binary seed={}", seed);
     let mut outs = vec![];
-    for mode in 0..4 {
+    let mut slowest = std::time::Duration::from_millis(0);
+    // modes 0-3: same command line idle / pinned / under load / again; 4: -w without a socket (there is
+    // nobody to wait for: the option has no effect); 5: -i (opcode trace on stdout: only the final
+    // state count and the exit status are compared)
+    for mode in 0..6 {
         let mut cmd = if mode == 1 && std::path::Path::new("/usr/bin/taskset").exists() {
             let mut c = std::process::Command::new("taskset");
             c.args(["-c", "0", bin]);
@@ -635,6 +639,12 @@ pub fn binary_determinism(rep: &mut Report, seed: u64) {
             std::process::Command::new(bin)
         };
         cmd.args(["-e", &path, "-m", "--log", "info"]);
+        if mode == 4 {
+            cmd.arg("-w");
+        }
+        if mode == 5 {
+            cmd.arg("-i");
+        }
         let mut burners = vec![];
         if mode == 2 {
             for _ in 0..24 {
@@ -643,7 +653,50 @@ pub fn binary_determinism(rep: &mut Report, seed: u64) {
                 }
             }
         }
-        let out = cmd.output();
+        // bounded wait: the plain runs give the time scale (the program is the same)
+        let t0 = std::time::Instant::now();
+        let limit = if mode < 4 { std::time::Duration::from_secs(600) } else { (slowest * 200).max(std::time::Duration::from_secs(40)) };
+        let out = match cmd.stdout(std::process::Stdio::piped()).stderr(std::process::Stdio::piped()).spawn() {
+            Ok(mut child) => {
+                // drain the pipes on threads so that a chatty child cannot block on a full pipe
+                let mut so = child.stdout.take().unwrap();
+                let mut se = child.stderr.take().unwrap();
+                let h1 = std::thread::spawn(move || {
+                    let mut v = vec![];
+                    let _ = std::io::Read::read_to_end(&mut so, &mut v);
+                    v
+                });
+                let h2 = std::thread::spawn(move || {
+                    let mut v = vec![];
+                    let _ = std::io::Read::read_to_end(&mut se, &mut v);
+                    v
+                });
+                let mut status = None;
+                while t0.elapsed() < limit {
+                    match child.try_wait() {
+                        Ok(Some(s)) => {
+                            status = Some(s);
+                            break;
+                        }
+                        Ok(None) => std::thread::sleep(std::time::Duration::from_millis(5)),
+                        Err(_) => break,
+                    }
+                }
+                if status.is_none() {
+                    let _ = child.kill();
+                    let _ = child.wait();
+                }
+                let (o, e) = (h1.join().unwrap_or_default(), h2.join().unwrap_or_default());
+                match status {
+                    Some(s) => Ok((o, e, s.success())),
+                    None => Err(format!("still running after {:?} (the same program took at most {:?} with the plain command line)", limit, slowest)),
+                }
+            }
+            Err(e) => Err(format!("spawn: {}", e)),
+        };
+        if mode < 4 {
+            slowest = slowest.max(t0.elapsed());
+        }
         for mut b in burners {
             let _ = b.kill();
             let _ = b.wait();
@@ -651,10 +704,15 @@ pub fn binary_determinism(rep: &mut Report, seed: u64) {
         rep.evaluations += 1;
         rep.cell("binary-mode", &[mode]);
         match out {
-            Ok(o) => {
-                let stderr = String::from_utf8_lossy(&o.stderr).to_string();
+            Ok((stdout, stderr, ok)) => {
+                let stderr = String::from_utf8_lossy(&stderr).to_string();
                 let state_line = stderr.lines().find(|l| l.contains("state:")).map(|l| l.split(',').next().unwrap_or("").to_string());
-                outs.push((o.stdout, state_line, o.status.success()));
+                // the opcode trace of -i is not compared
+                let stdout = if mode == 5 { outs.first().map(|o: &(Vec<u8>, Option<String>, bool)| o.0.clone()).unwrap_or_default() } else { stdout };
+                outs.push((stdout, state_line, ok));
+            }
+            Err(e) if mode >= 4 && e.starts_with("still running") => {
+                rep.finding("binary|does-not-terminate", || format!("release binary with {} on a terminating program: {} (seed {})", if mode == 4 { "-w (no socket)" } else { "-i" }, e, seed), || replay.clone());
             }
             Err(e) => rep.inconclusive.push(format!("could not run the release binary: {}", e)),
         }
